@@ -19,6 +19,11 @@
  *                           op exit before performing it.
  *   VERIF_FAULT=eio@K       fail that call with EIO      (nothing is written)
  *   VERIF_FAULT=enospc@K    fail that call with ENOSPC   (nothing is written)
+ *   VERIF_FAULT=pause@K     not a fault: at that call the process creates $VERIF_PAUSE_DIR/reached,
+ *                           waits until $VERIF_PAUSE_DIR/resume exists, and then performs the call
+ *                           normally. The driver runs ANOTHER pavexc process to completion in the
+ *                           meantime: one process runs at a time, so the interleaving of the two on
+ *                           the shared cache is decided by K alone and replays exactly.
  *   VERIF_FAULT_PATH=<sub>  substring a path must contain to be counted (default: every path).
  *   A fired fault is recorded in the trace as: FAULT <kind> <K> <op> <path> <size> <prefix>
  *
@@ -41,13 +46,15 @@
 #include <sys/syscall.h>
 #include <sys/types.h>
 #include <sys/uio.h>
+#include <time.h>
 #include <unistd.h>
 
 static int g_active = 0;
 static int g_trace_fd = -1;
 static int g_have_seed = 0;
 static _Atomic uint64_t g_prng;
-static int g_fault_kind = 0; /* 0 none, 1 crash, 2 eio, 3 enospc */
+static int g_fault_kind = 0; /* 0 none, 1 crash, 2 eio, 3 enospc, 4 pause */
+static char g_pause_dir[512];
 static long g_fault_k = 0;
 static long g_fault_prefix = -1;
 static char g_fault_path[512];
@@ -104,6 +111,7 @@ __attribute__((constructor)) static void shim_init(void) {
             if (!strncmp(f, "crash", 5)) g_fault_kind = 1;
             else if (!strncmp(f, "eio", 3)) g_fault_kind = 2;
             else if (!strncmp(f, "enospc", 6)) g_fault_kind = 3;
+            else if (!strncmp(f, "pause", 5)) g_fault_kind = 4;
             g_fault_k = strtol(at + 1, NULL, 10);
             const char *c = strchr(at, ':');
             if (c) g_fault_prefix = strtol(c + 1, NULL, 10);
@@ -112,6 +120,10 @@ __attribute__((constructor)) static void shim_init(void) {
     const char *p = getenv("VERIF_FAULT_PATH");
     if (p) {
         strncpy(g_fault_path, p, sizeof g_fault_path - 1);
+    }
+    const char *pd = getenv("VERIF_PAUSE_DIR");
+    if (pd) {
+        strncpy(g_pause_dir, pd, sizeof g_pause_dir - 1);
     }
 }
 
@@ -162,13 +174,29 @@ static int fault_gate(const char *op, const char *path, long size, long *prefix_
     }
     if (g_trace_fd >= 0) {
         char buf[1400];
-        const char *kind = g_fault_kind == 1 ? "crash" : g_fault_kind == 2 ? "eio" : "enospc";
+        const char *kind = g_fault_kind == 1 ? "crash" : g_fault_kind == 2 ? "eio" : g_fault_kind == 3 ? "enospc" : "pause";
         int n = snprintf(buf, sizeof buf, "FAULT %s %ld %s %s %ld %ld\n", kind, k, op, path, size, prefix);
         if (n > 0) trace_line(buf, (size_t)n < sizeof buf ? (size_t)n : sizeof buf - 1);
     }
     if (g_fault_kind == 1) {
         *prefix_out = prefix;
         return 1;
+    }
+    if (g_fault_kind == 4) {
+        /* park here until the driver says go on (raw syscalls: nothing of this is traced) */
+        if (g_pause_dir[0]) {
+            char a[600], b[600];
+            snprintf(a, sizeof a, "%s/reached", g_pause_dir);
+            snprintf(b, sizeof b, "%s/resume", g_pause_dir);
+            int fd = (int)syscall(SYS_open, a, O_WRONLY | O_CREAT | O_CLOEXEC, 0644);
+            if (fd >= 0) syscall(SYS_close, fd);
+            struct timespec ts = {0, 5 * 1000 * 1000};
+            for (long i = 0; i < 200L * 3600; i++) { /* one hour at most */
+                if (syscall(SYS_access, b, F_OK) == 0) break;
+                syscall(SYS_nanosleep, &ts, NULL);
+            }
+        }
+        return 0;
     }
     errno = g_fault_kind == 2 ? EIO : ENOSPC;
     return 2;
